@@ -164,11 +164,10 @@ AddAppointmentF(st, who, a, orc) ==
                                  LET d == a.l
                                      p == Decrypt(a.blob, d)
                                  IN IF p = NoTx THEN Out(st1, okReply, {})   \* invalid blob: charged, nothing stored
-                                    ELSE IF HasKey(st.appts, k)
-                                    THEN \* S2: INSERT of an existing row is unwrapped (watcher.rs store_triggered_appointment)
-                                         [st |-> st1, reply |-> Reply("abort"), sends |-> {}, abort |-> "S2", hs |-> {}]
                                     ELSE LET hb == HandleBreach(st1, st1.memo, p, orc)
-                                             st2 == [st1 EXCEPT !.appts = st1.appts \cup {row},
+                                             \* stored, or updated when it is already held (held without a tracker: its
+                                             \* penalty was found already on chain when the dispute was first seen)
+                                             st2 == [st1 EXCEPT !.appts = {x \in st1.appts : Key(x) # k} \cup {row},
                                                                 !.memo = IF hb.sent THEN MemoAdd(st1, st1.memo, p, orc) ELSE st1.memo]
                                              snd == IF hb.sent THEN {p} ELSE {}
                                          IN CASE hb.cls = "acc" ->
@@ -245,7 +244,7 @@ RConnectF(st, blk, orc) ==
         stB == DropAppts([stA EXCEPT !.trackers = T1, !.gk = users2(stA.gk), !.users = users2(stA.users)], ck)
         \* handle_reorged_txs (only when the set is not empty); every class is a function of the transaction
         cls(tx) == Send(stB, st.memo, tx, orc)
-        missing == {k \in reorged1 : ~HasKey(stB.trackers, k)}          \* S18: load_tracker(uuid).unwrap()
+        \* trackers deleted since they were flagged (owner purged, appointment dropped) are skipped
         RT == {t \in stB.trackers : Key(t) \in reorged1}
         dOk(t) == cls(t.d).v \in {"ok", "res"}
         rDrop == {t \in RT : ~dOk(t) \/ cls(t.p).v = "rej"}
@@ -254,7 +253,7 @@ RConnectF(st, blk, orc) ==
         \* rebroadcast_stale_txs: unconfirmed for RETRY_N blocks or more
         stale == {t \in T3 : ~t.conf /\ h >= RETRY_N /\ t.h <= h - RETRY_N}
         sDrop == {t \in stale : cls(t.p).v = "rej"}
-        sRes == {t \in stale : cls(t.p).v = "res"}                        \* S11: update_tracker_status(IrrevocablyResolved).unwrap()
+        \* cls = "res" (already on chain, in a block not processed yet): the tracker is left as it is
         sOk == {t \in stale : cls(t.p).v = "ok"}
         T4 == {IF t \in sOk THEN [t EXCEPT !.h = cls(t.p).h] ELSE t : t \in T3}
         asked == {t.d : t \in RT} \cup {t.p : t \in {x \in RT : dOk(x)}} \cup {t.p : t \in stale}
@@ -263,7 +262,7 @@ RConnectF(st, blk, orc) ==
         drops == {Key(t) : t \in rDrop \cup sDrop}
         stC == DropAppts([stB EXCEPT !.trackers = T4, !.reorged = {}, !.memo = {}], drops)
     IN [st |-> stC, reply |-> Reply("ok"), sends |-> sent,
-        abort |-> IF missing # {} THEN "S18" ELSE IF sRes # {} THEN "S11" ELSE IF norpc THEN "norpc" ELSE "",
+        abort |-> IF norpc THEN "norpc" ELSE "",
         hs |-> {<<Key(t), {h, cls(t.p).h}>> : t \in sOk} \cup {<<Key(t), {h}>> : t \in rKeep}]
 
 GkDisconnectF(st, h) == [st EXCEPT !.gkH = h - 1]
